@@ -612,6 +612,7 @@ static void put_tail(FILE *out) {
 
 /* cfg <path> [structured twin tokens for the Lean side, ignored here] */
 extern void h_tcp_client_reset(void);
+extern void h_tls_client_reset(void);
 static int op_cfg(int argc, char **argv, FILE *out) {
     int i;
     struct list_node *e;
@@ -619,6 +620,7 @@ static int op_cfg(int argc, char **argv, FILE *out) {
         return 0;
     h_threads_reset();
     h_tcp_client_reset();
+    h_tls_client_reset();
     h_rq_reset();
     h_live_set(0);
     h_rewrite_reset();
@@ -1341,11 +1343,12 @@ int h_replyh_traced(struct server *s, unsigned char *buf, int len) {
 /* srvconn <srvname> <event>...: the proxy as stream client of TCP server <srvname>: connection brought up by the real tcpconnect, the real
    tcpclientrd reading what the scripted home server writes (w:<hex> | t | e), closeh/timeouth and the real reconnect included */
 extern int h_tcp_client(struct server *server, struct protodefs *pd, char **script, int nscript);
+extern int h_tls_client(struct server *server, struct protodefs *pd, char **script, int nscript);
 static int op_srvconn(int argc, char **argv, FILE *out) {
     struct server *s;
-    if (argc < 1 || !world_ready || !(s = srv_by_name(argv[0])) || s->conf->type != RAD_TCP)
+    if (argc < 1 || !world_ready || !(s = srv_by_name(argv[0])) || (s->conf->type != RAD_TCP && s->conf->type != RAD_TLS))
         return 0;
-    if (h_tcp_client(s, &fakepd[RAD_TCP], argv + 1, argc - 1))
+    if (s->conf->type == RAD_TCP ? h_tcp_client(s, &fakepd[RAD_TCP], argv + 1, argc - 1) : h_tls_client(s, &fakepd[RAD_TLS], argv + 1, argc - 1))
         return 0;
     fputs("srvconn", out);
     put_tail(out);
